@@ -4,6 +4,11 @@
 open C18_model
 open Conv
 
+(* every message about a call of a chained case is prefixed with the call *)
+let pfx = ref ""
+let mismatch id m = Conv.mismatch id (!pfx ^ m)
+let propfail id m = Conv.propfail id (!pfx ^ m)
+
 (* ---------- conversions ---------- *)
 let name_of_sx (s : sx) : z list =
   let a = atom s in
@@ -265,6 +270,24 @@ let describe_devs (people : table) (r1 : devsResult) (r2 : devsResult) (o1 : z) 
       Printf.sprintf " [%d (tick, developer) entries differ, e.g. tick %d developer %d: the inputs add up to (%s), the merged result has (%s)]"
         (List.length l) t d (show v) (show g)
 
+(* report only: the first interaction cell that differs from the sum over the members of the merged developer *)
+let describe_rows (people : table) (merged : z list list) (r1 : burndownResult) (r2 : burndownResult) (out : matrix) : string =
+  let nm = List.length merged in
+  let res = ref "" in
+  if List.length out <> nm then res := Printf.sprintf " [%d rows for %d merged developers]" (List.length out) nm
+  else List.iteri (fun w row ->
+      if !res = "" then begin
+        if List.length row <> nm + 2 then res := Printf.sprintf " [row of merged developer %d (%s) has %d cells, %d expected]" w (string_of_name (List.nth merged w)) (List.length row) (nm + 2)
+        else List.iteri (fun c v ->
+            if !res = "" then begin
+              let e = int_of_z (pm_spec_cell people r1.br_people r2.br_people r1.br_pm r2.br_pm (z_of_int w) (z_of_int c)) in
+              if int_of_z v <> e then
+                res := Printf.sprintf " [row of merged developer %d (%s), column %d: merged %d, the input developers of that identity add up to %d; whole row %s]"
+                         w (string_of_name (List.nth merged w)) c (int_of_z v) e (show_ints (List.map int_of_z row))
+            end) row
+      end) out;
+  !res
+
 (* big cases go through extracted list functions that are not tail recursive: run with a large stack *)
 let () =
   if Sys.getenv_opt "VERIF_DRIVER_STACK" = None then begin
@@ -274,13 +297,37 @@ let () =
      with _ -> ())
   end
 
-let () =
-  iter_cases (fun id c ->
+let rec judge_case id c =
     let an = atom (List.hd (args (field "an" c))) in
+    if field_opt "chain" c <> None then judge_chain id an c else
     let fast = (match field_opt "fam" c with Some _ -> true | None -> false) in
     if fast then count "scale_cases";
     let obs = field "obs" c in
     let out = List.hd (args (field "out" obs)) in
+    (* (inputs a b others), chained cases: the arguments of the call and every other live result must read the same after it *)
+    (match field_opt "inputs" obs with
+     | Some f ->
+         let fl = List.map bool_of_sx (args f) in
+         (match fl with
+          | [a; b; others] ->
+              (* the one place where the code is known to write into its first argument: burndown, the second result has no
+                 interaction matrix but brings new developers - the row table of r1.PeopleMatrix is taken over and its rows are
+                 widened in place; the result shares that row table, so a later call of the same kind on the result also
+                 changes the earlier results that share it *)
+              let ext_call = an = "burndown" && (
+                  let r1s = List.hd (args (field "r1" c)) and r2s = List.hd (args (field "r2" c)) in
+                  mat_of_sx (List.hd (args (field "pm" r2s))) = [] && mat_of_sx (List.hd (args (field "pm" r1s))) <> []) in
+              if not a || not b then begin
+                let extend = ext_call && not a && b in
+                propfail id (Printf.sprintf "%s: MergeResults changed its %s argument: the caller's result no longer reads as before the call%s" an
+                               (if not a && not b then "first and second" else if not a then "first" else "second")
+                               (if extend then " [bd-extend-widens-r1: the second result has no interaction matrix, the rows of the first argument's PeopleMatrix are widened in place]" else ""))
+              end;
+              if not others then
+                propfail id (an ^ ": MergeResults changed a result that is not an argument of the call (an earlier result shares storage with an argument or with the new result)"
+                             ^ (if ext_call then " [bd-extend-widens-r1: the first argument came out of an earlier call with a second result without interaction matrix and shares the row table of that call's first argument]" else ""))
+          | _ -> failwith "inputs")
+     | None -> ());
     let c1 = common_of_sx (field "c1" c) and c2 = common_of_sx (field "c2" c) in
     match an with
     | "common" ->
@@ -363,6 +410,10 @@ let () =
                                  (List.length r1.br_ph = n1) && (List.length r2.br_ph = n2) in
                   let rect n pm = List.length pm = n && List.for_all (fun r -> List.length r = n + 2) pm in
                   let rows_dom = wf && r2.br_pm <> [] && rect n1 r1.br_pm && rect n2 r2.br_pm in
+                  (* the "extend" branch: the second result has no interaction matrix; the rows are those of the first result,
+                     re-indexed, and zero rows for the developers only the second result knows (pm_spec_cell reads an absent
+                     matrix as zeros) *)
+                  let rows_dom_ext = wf && r2.br_pm = [] && n1 > 0 && rect n1 r1.br_pm in
                   let bad_hist = if not hist_dom then None else begin
                       count "selection_judged";
                       let rec go w = function
@@ -380,7 +431,10 @@ let () =
                    | None -> ());
                   if rows_dom && (count "rows_judged"; not (pm_rows_b people merged r1 r2 gpm)) then
                          propfail id ("burndown: an interaction row of the merged result is not the sum over the input developers of that merged identity"
-                                      ^ (if lit then "" else " [identities merge: F8]"));
+                                      ^ describe_rows people merged r1 r2 gpm ^ (if lit then "" else " [identities merge: F8]"));
+                  if rows_dom_ext && (count "rows_judged_extend_branch"; not (pm_rows_b people merged r1 r2 gpm)) then
+                         propfail id ("burndown: an interaction row of the merged result is not the sum over the input developers of that merged identity (the second result has no interaction matrix: the rows of the first one, re-indexed, and zero rows for the new developers are expected)"
+                                      ^ describe_rows people merged r1 r2 gpm ^ (if lit then "" else " [identities merge: F8] [extend branch: the rows of the first result are taken over without re-indexing]"));
                        begin
                          (* fine correspondence *)
                          let mcodes = List.map (fun h -> int_of_z (code h)) mb.br_ph in
@@ -397,4 +451,30 @@ let () =
                            mismatch id "burndown: people interaction matrix differs from the model"
                          else if int_of_sx (one "files") <> 0 then mismatch id "burndown: file histories are merged (the model has none)"
                        end)
-         | a -> failwith ("unknown analysis " ^ a)))
+         | a -> failwith ("unknown analysis " ^ a))
+
+(* chained merges: (obs (step a b (c1 ..) (c2 ..) (r1 image) (r2 image) [filetab] idtab (inputs ..) out) ...): every call is
+   judged like a single pair whose inputs are the pictures of its operands taken before the call *)
+and judge_chain id an c =
+  let shape = atom (List.hd (args (field "chain" c))) in
+  count "chain_cases";
+  let steps = List.filter (fun x -> tag x = "step") (args (field "obs" c)) in
+  let nsteps = List.length steps in
+  let name k = let n0 = (if shape = "LR" then 4 else 3) in
+    if k < n0 then String.make 1 (Char.chr (65 + k)) else Printf.sprintf "<result of call %d>" (k - n0 + 1) in
+  List.iteri (fun i st ->
+    match args st with
+    | a :: b :: rest ->
+        count "chain_calls";
+        if i > 0 then count "chain_calls_on_an_intermediate_or_used_result";
+        let keep t = List.filter (fun x -> tag x = t) rest in
+        let sub = L ([A "case"; A (string_of_int id); L [A "an"; A an]] @ keep "c1" @ keep "c2" @ keep "r1" @ keep "r2"
+                     @ [L (A "obs" :: (keep "idtab" @ keep "filetab" @ keep "inputs" @ keep "out"))]) in
+        pfx := Printf.sprintf "chained merge %s, call %d of %d = MergeResults(%s, %s), operands as they were before the call: " shape (i + 1) nsteps
+                 (name (int_of_sx a)) (name (int_of_sx b));
+        (try judge_case id sub with e -> pfx := ""; raise e);
+        pfx := ""
+    | _ -> failwith "step") steps
+
+let () =
+  iter_cases judge_case
